@@ -1,1 +1,65 @@
-//! Verification hooks: `dial` (thin pass-through wrappers; feature `verif-hooks` only).
+//! C15: relay dialing (`client::tls::dial_happy_eyeballs`) with a controllable connector.
+//!
+//! * [`dial_happy_eyeballs`] is an unchanged pass-through to the private function.
+//! * [`TcpStream`] is a shim that `dial_happy_eyeballs` resolves `TcpStream::connect` to when
+//!   the `verif-hooks` feature is on: it calls the connector registered *on the current
+//!   thread*, or `tokio::net::TcpStream::connect` if there is none (the original behaviour).
+//!   Everything around the call (per-attempt timeout, error mapping, `set_nodelay`) is the
+//!   original code.
+
+use std::{cell::RefCell, future::Future, io, net::SocketAddr, pin::Pin, sync::Arc, time::Duration};
+
+use iroh_dns::dns::DnsResolver;
+use url::Url;
+
+use crate::client::DialError;
+
+/// Future returned by a [`Connector`].
+pub type ConnectFuture = Pin<Box<dyn Future<Output = io::Result<tokio::net::TcpStream>> + Send>>;
+
+/// Replacement for `tokio::net::TcpStream::connect`.
+pub type Connector = Arc<dyn Fn(SocketAddr) -> ConnectFuture + Send + Sync>;
+
+thread_local! {
+    static CONNECTOR: RefCell<Option<Connector>> = const { RefCell::new(None) };
+}
+
+/// Registers (or removes) the connector used by dials that run on the calling thread.
+pub fn set_connector(connector: Option<Connector>) {
+    CONNECTOR.with(|c| *c.borrow_mut() = connector);
+}
+
+/// Shim standing in for `tokio::net::TcpStream` inside `dial_happy_eyeballs`.
+#[derive(Debug)]
+pub struct TcpStream;
+
+impl TcpStream {
+    /// `tokio::net::TcpStream::connect`, or the registered connector.
+    pub async fn connect(addr: SocketAddr) -> io::Result<tokio::net::TcpStream> {
+        let connector = CONNECTOR.with(|c| c.borrow().clone());
+        match connector {
+            Some(connect) => connect(addr).await,
+            None => tokio::net::TcpStream::connect(addr).await,
+        }
+    }
+}
+
+/// Unchanged pass-through to the private `dial_happy_eyeballs`.
+pub async fn dial_happy_eyeballs(
+    dns_resolver: &DnsResolver,
+    url: &Url,
+    prefer_ipv6: bool,
+) -> Result<tokio::net::TcpStream, DialError> {
+    crate::client::verif_dial_happy_eyeballs(dns_resolver, url, prefer_ipv6).await
+}
+
+/// The timing constants of the dial loop (`defaults::timeouts`), for the oracle's bounds.
+pub fn timeouts() -> [(&'static str, Duration); 4] {
+    use crate::defaults::timeouts::*;
+    [
+        ("DIAL_ENDPOINT_TIMEOUT", DIAL_ENDPOINT_TIMEOUT),
+        ("CONNECTION_ATTEMPT_DELAY", CONNECTION_ATTEMPT_DELAY),
+        ("RESOLUTION_DELAY", RESOLUTION_DELAY),
+        ("DNS_TIMEOUT", DNS_TIMEOUT),
+    ]
+}
